@@ -2,10 +2,13 @@
 (***************************************************************************)
 (* Real two-master histories (USR2 / TERM / QUIT to the old or the new     *)
 (* master, under client load) validated against Upgrade.tla.               *)
-(*  ev: {e:"op", op:"USR2"|"STOP", m:"a"|"b"|"c"}                           *)
+(*  ev: {e:"op", op:"USR2"|"USR2F"|"STOP"|"WINCH"|"HUP", m:"a"|"b"|"c"}    *)
+(*      (USR2F: USR2 while the release on disk cannot be loaded: the new   *)
+(*       master fails to boot and exits by itself)                         *)
 (*      {e:"chk", alive:[names], base, two: "a"|"b"|"c"|"none"|"other",    *)
 (*       sock: socket file exists, refused: connection attempts refused    *)
-(*       since the previous checkpoint, nmasters}                          *)
+(*       since the previous checkpoint, nmasters, serving:[names of the    *)
+(*       masters whose workers answered the probe requests]}               *)
 (* Each op is the Upgrade action; the model's internal steps (Boot, Reap,  *)
 (* Promote) run to quiescence before a checkpoint is compared.  The C14    *)
 (* clauses are judged on the OBSERVED values alone (P); a difference from  *)
@@ -20,6 +23,9 @@ T == Traces[tid]
 
 InternalEnabled == \E m \in M : ENABLED Boot(m) \/ ENABLED Reap(m) \/ ENABLED Promote(m)
 ToSet(s) == {s[i] : i \in DOMAIN s}
+(* was the last upgrade attempt made with a release that cannot boot? *)
+LastUsr2Fail == LET I == {i \in 1..(l - 1) : T.ev[i].e = "op" /\ T.ev[i].op \in {"USR2", "USR2F"}} IN
+                I # {} /\ T.ev[CHOOSE i \in I : \A j \in I : j <= i].op = "USR2F"
 
 Envelope(e) ==
   LET al == ToSet(e.alive) IN
@@ -28,23 +34,29 @@ Envelope(e) ==
   ELSE IF T.unix /\ al # {} /\ ~e.sock THEN "SocketFileRemovedWhileInUse"
   ELSE IF Cardinality(al) = 2 /\ (e.base \notin al \/ e.two \notin al \/ e.base = e.two) THEN "PidFilesWrongDuringUpgrade"
   ELSE IF Cardinality(al) = 1 /\ (e.base \notin al \/ e.two # "none") THEN "PidFileNotUnderConfiguredName"
+  \* judged on the operator's ops alone (cause / wantServe are history of the ops, not inferred state)
+  ELSE IF \E m \in M : st[m] # "none" /\ m \notin al /\ cause[m] = "none" THEN "MasterDiedUnasked"
+  ELSE IF (\E m \in al : wantServe[m]) /\ ~(\E m \in al : wantServe[m] /\ m \in ToSet(e.serving)) THEN "NotServingAfterRestore"
   ELSE "ok"
 
 Matches(e) ==
   /\ ToSet(e.alive) = {m \in M : Alive(m)}
   /\ e.base = pidfile.base /\ e.two = pidfile.two
   /\ (T.unix => e.sock = sockfile)
+  /\ ToSet(e.serving) \subseteq {m \in M : workers[m] > 0}
 
 TInit == Init /\ tid \in 1..NT /\ l = 1 /\ verdict = "ok"
 TOp ==
   /\ verdict = "ok" /\ l <= Len(T.ev) /\ T.ev[l].e = "op" /\ ~InternalEnabled
   /\ LET e == T.ev[l] IN
-     IF e.op = "USR2" THEN (IF ENABLED USR2(e.m) THEN USR2(e.m) ELSE UNCHANGED vars)
+     IF e.op \in {"USR2", "USR2F"} THEN (IF ENABLED USR2(e.m) THEN USR2(e.m) ELSE UNCHANGED vars)
+     ELSE IF e.op = "WINCH" THEN (IF ENABLED Winch(e.m) THEN Winch(e.m) ELSE UNCHANGED vars)
+     ELSE IF e.op = "HUP" THEN (IF ENABLED Hup(e.m) THEN Hup(e.m) ELSE UNCHANGED vars)
      ELSE (IF ENABLED Stop(e.m) THEN Stop(e.m) ELSE UNCHANGED vars)
   /\ l' = l + 1 /\ UNCHANGED <<tid, verdict>>
 TInternal ==
   /\ verdict = "ok" /\ l <= Len(T.ev)
-  /\ \E m \in M : Boot(m) \/ Reap(m) \/ Promote(m)
+  /\ \E m \in M : (Boot(m) /\ ~LastUsr2Fail) \/ (BootFail(m) /\ LastUsr2Fail) \/ Reap(m) \/ Promote(m)
   /\ UNCHANGED <<tid, l, verdict>>
 TChk ==
   /\ verdict = "ok" /\ l <= Len(T.ev) /\ T.ev[l].e = "chk" /\ ~InternalEnabled
